@@ -10,7 +10,7 @@ var errWatchdog = errors.New("watchdog: process did not finish")
 
 // CLIWatchdog is generous on purpose (a run normally takes ~3 ms): it only
 // nominates a hang, never measures performance.
-var CLIWatchdog = 120 * time.Second
+var CLIWatchdog = 60 * time.Second
 
 // runWithWatchdog runs cmd to completion; kills it after CLIWatchdog.
 func runWithWatchdog(cmd *exec.Cmd) error { return runWithLimit(cmd, CLIWatchdog) }
